@@ -99,3 +99,9 @@ add("C19", M, BE, "            predictor_list_nodes = [X_features] + model_param
 add("C20", M, UP, "            if not (0 < ratio_bound <= 1):", "            if ratio_bound <= 0 or ratio_bound > 1:", "NaN bound accepted")
 add("C20", M, GS, "            if not (0.0 <= constraint_weight <= 1.0):", "            if constraint_weight < 0.0 or constraint_weight > 1.0:", "NaN weight accepted")
 add("C17", R, ADV, "                        stop = stop or result", "                        stop = result or stop", "commuted accumulation")
+# sixth batch: state derived in __init__, defaults, module-level caches
+add("C19", M, GS, "                    (1.0 - self.constraint_weight) * self.objectives_[i]", "                    self.objective_weight * self.objectives_[i]", "weight derived in __init__ read by fit")
+add("C06", M, UP, "        ratio_bound_slack: float = 0.0,", "        ratio_bound_slack: float = _DEFAULT_DIFFERENCE_BOUND,", "slack default changed")
+add("C01", M, MF, "            all_data[col_name] = np.asarray(param_value)", "            all_data[col_name] = logger.__dict__.setdefault(id(param_value), np.asarray(param_value))", "module-level cache keyed by id()")
+add("C01", M, MF, "                return underlying_result.iloc[:, 0]", "                return underlying_result.squeeze()", "shape-dependent unwrap")
+add("C09", R, GS, "                    (1.0 - self.constraint_weight) * self.objectives_[i]", "                    (1 - self.constraint_weight) * self.objectives_[i]", "integer literal")
